@@ -252,7 +252,7 @@ Lemma comp_loop_map_Forall {B} (D : B -> Prop) (g : B -> pv) (h : B -> pv) P cf 
 Proof.
   intros H l Hl. induction Hl as [|y r Hy _ IH]; cbn [map]; [reflexivity|].
   rewrite comp_loop_cons, IH. specialize (H y Hy).
-  destruct (eval P cf ((n, g y) :: e1) elt) as [[v e']| | |]; cbn [bind] in *; try discriminate.
+  destruct (eval P cf ((n, g y) :: e1) elt) as [[v e']| | | |]; cbn [bind] in *; try discriminate.
   inversion H. reflexivity.
 Qed.
 
@@ -269,9 +269,9 @@ Lemma exec_SAssign_EComp P cf lf e t k elt n it :
   exec P cf lf e (SAssign t (EComp k elt n it)) =
   do (v, e1) <- (do (vi, e1) <- eval P cf e it;
                  do l <- iter_list vi;
-                 do vs <- comp_loop P cf e1 n elt l;
+                 do vs <- attach e1 (comp_loop P cf e1 n elt l);
                  PyLite.Ok (match k with KTuple => PTuple vs | KList => PList vs end, e1));
-  do e2 <- assign P cf e1 t v; PyLite.Ok (ONorm e2).
+  do e2 <- attach e1 (assign P cf e1 t v); PyLite.Ok (ONorm e2).
 Proof. reflexivity. Qed.
 
 Ltac pystep_head_c h :=
@@ -289,7 +289,7 @@ Ltac pystep1c :=
       else pystep_head_c h
   end.
 Ltac pystepsc := repeat pystep1c; pynorm_head.
-Ltac pyrunc := repeat pystep1c; pyfinish.
+Ltac pyrunc := timeout 300 (repeat pystep1c; pyfinish).
 
 (** * The executor, extended (2): comprehensions inside nested blocks
     A comprehension reached inside a nested block is expanded by the
